@@ -16,6 +16,8 @@ func main() {
 	switch os.Args[1] {
 	case "smoke":
 		os.Exit(smoke())
+	case "race-pass":
+		os.Exit(raceMain())
 	case "case":
 		os.Exit(caseMain(os.Args[2:]))
 	case "worker":
